@@ -30,6 +30,7 @@ import (
 	"github.com/kubewharf/kubebrain/pkg/backend/tso"
 	"github.com/kubewharf/kubebrain/pkg/metrics"
 	"github.com/kubewharf/kubebrain/pkg/storage"
+	"github.com/kubewharf/kubebrain/pkg/verifhook"
 )
 
 // retry state
@@ -167,6 +168,7 @@ func (a *asyncFifoRetryImpl) retry(ctx context.Context) (breakLoop bool) {
 		return true
 	}
 
+	verifhook.Gate("retry.step")
 	state := retrySuccess
 	defer func() {
 		// emit retry metrics
